@@ -493,6 +493,12 @@ fn cli_only_strategy() -> BoxedStrategy<Vec<String>> {
         Just(vec!["--with-derive-custom-struct".to_string(), "Foo|Bar=PartialOrd,Hash".to_string()]),
         Just(vec!["--with-derive-custom-enum".to_string(), "E=Hash".to_string()]),
         Just(vec!["--with-derive-custom-union".to_string(), "U=Clone".to_string()]),
+        // regex parts that contain '=' themselves (item names never do, so each is equivalent
+        // to the plain spelling in `equiv_plain`)
+        Just(vec!["--with-derive-custom".to_string(), "Foo|a=b=Clone".to_string()]),
+        Just(vec!["--with-derive-custom-struct".to_string(), "[F=]oo|Bar=PartialOrd,Hash".to_string()]),
+        Just(vec!["--with-derive-custom-enum".to_string(), "E|x=y=Hash".to_string()]),
+        Just(vec!["--with-derive-custom-union".to_string(), "U|=z=Clone".to_string()]),
         Just(vec!["--with-attribute-custom".to_string(), "Foo=#[allow(dead_code)]".to_string()]),
         Just(vec!["--with-attribute-custom-struct".to_string(), "Foo=#[cfg(all())]".to_string()]),
         Just(vec!["--with-attribute-custom-enum".to_string(), "E=#[allow(unused)]".to_string()]),
@@ -518,6 +524,29 @@ fn cli_only_strategy() -> BoxedStrategy<Vec<String>> {
     ]
     .boxed()
 }
+
+/// REGEX=DERIVES values whose regex contains '=' -> the spelling without it that matches the
+/// same items (no item name contains '='), so both must have the same effect on the bindings.
+fn equiv_plain(v: &str) -> Option<&'static str> {
+    match v {
+        "Foo|a=b=Clone" => Some("Foo=Clone"),
+        "[F=]oo|Bar=PartialOrd,Hash" => Some("Foo|Bar=PartialOrd,Hash"),
+        "E|x=y=Hash" => Some("E=Hash"),
+        "U|=z=Clone" => Some("U=Clone"),
+        _ => None,
+    }
+}
+
+const EQ_PREFIXES: &[(&str, &str)] = &[
+    ("--with-derive-custom", "Foo|a=b=Clone"),
+    ("--with-derive-custom-struct", "[F=]oo|Bar=PartialOrd,Hash"),
+    ("--with-derive-custom-enum", "E|x=y=Hash"),
+    ("--with-derive-custom-union", "U|=z=Clone"),
+    ("--with-derive-custom", "Foo=Clone"),
+    ("--with-derive-custom-struct", "Foo|Bar=PartialOrd,Hash"),
+    ("--with-derive-custom-enum", "E=Hash"),
+    ("--with-derive-custom-union", "U=Clone"),
+];
 
 #[derive(Clone, Debug, Serialize, Deserialize)]
 pub struct Case {
@@ -611,6 +640,28 @@ pub fn worker_c13(req: &Value, _io: &mut ServerIo) -> Value {
     let r1 = bg::generate_with(b1.clone());
     let r2 = bg::generate_with(b2);
     let mut out = json!({"flags1": flags1, "flags2": flags2, "r1": res_json(&r1), "r2": res_json(&r2)});
+    if case.cli_prefix.iter().any(|f| equiv_plain(f).is_some()) {
+        let mut ae: Vec<String> = vec!["bindgen".into()];
+        ae.extend(case.cli_prefix.iter().map(|f| equiv_plain(f).map(|s| s.to_string()).unwrap_or_else(|| f.clone())));
+        ae.push(header.clone());
+        progress(&json!({"stage": "prefix-parse", "args": ae}));
+        if let Ok(x) = bindgen::builder_from_flags(ae.into_iter()) {
+            let mut be = x.0;
+            let mut ok = true;
+            for op in &case.ops {
+                match std::panic::catch_unwind(std::panic::AssertUnwindSafe(|| apply(be.clone(), op, &dir))) {
+                    Ok(Ok(b)) => be = b,
+                    _ => {
+                        ok = false;
+                        break;
+                    }
+                }
+            }
+            if ok {
+                out["r_eq"] = res_json(&bg::generate_with(be));
+            }
+        }
+    }
     if case.check_cli_form && case.ops.len() == 1 && case.cli_prefix.is_empty() {
         if let Some(form) = cli_form(&case.ops[0], &dir) {
             let mut a3: Vec<String> = vec!["bindgen".into(), header.clone()];
@@ -796,6 +847,13 @@ impl Property for C13 {
                 v.push(Case { cpp, cli_prefix: vec![], ops: vec![op], check_cli_form: true });
             }
         }
+        // CLI-only callback flags alone: the round trip, and (for regexes containing '=') the
+        // equivalent-spelling relation
+        for cpp in [false, true] {
+            for (f, val) in EQ_PREFIXES {
+                v.push(Case { cpp, cli_prefix: vec![f.to_string(), val.to_string()], ops: vec![], check_cli_form: false });
+            }
+        }
         // boolean pairs
         let mut bools: Vec<Op> = NULLARY.iter().map(|n| Op::Nullary(n.0.into())).collect();
         bools.extend(BOOLS.iter().map(|b| Op::Bool(b.0.into(), b.2)));
@@ -893,6 +951,13 @@ impl Property for C13 {
             out.fail("bindings-differ/enum-style-bitfield-global", format!("default_enum_style(NewType{{is_bitfield:true,is_global:true}}) is written as `--default-enum-style bitfield`; flags {flags1:?}"));
         } else if r1 != r2 {
             out.fail("bindings-differ/roundtrip", format!("flags {flags1:?}\n b1: {}\n b2: {}", r1.chars().take(400).collect::<String>(), r2.chars().take(400).collect::<String>()));
+        }
+        if v.get("r_eq").is_some() {
+            out.class("cli-only-regex-containing-equals");
+            let re = res_of(&v["r_eq"]);
+            if re != r1 {
+                out.fail("cli-flag-effect/derive-regex-containing-equals", format!("{:?} and its equivalent spelling without '=' in the regex generate different bindings\n with '=': {}\n plain   : {}", case.cli_prefix, r1.chars().take(600).collect::<String>(), re.chars().take(600).collect::<String>()));
+            }
         }
         if let Some(e) = v.get("cli_form_error") {
             out.fail("cli-form-rejected/error-value", format!("{:?}: {e}", v["cli_form"]));
